@@ -319,11 +319,16 @@ LAMBDAS = np.array([-1.0, -10.0 + 3.0j, 2.0j, 0.3, -1000.0, 0.0, -0.5 - 20.0j])
 LAMBDAS_MILD = np.array([-1.0, -3.0 + 3.0j, 2.0j, 0.3, 0.0, -0.5 - 4.0j])
 
 
+NEAR_SINGULAR = np.array([1.0 + 3.0e-6, 10.0 * (1.0 - 2.0e-6), 0.01 * (1.0 + 2.5e-6), -1.0 + 0.5j], dtype=complex)
+
+
 def v_testeq(tier):
     return [
         ('lambdas=pool7,u0=1', dict(lambdas=LAMBDAS.copy(), u0=1.0)),
         ('lambdas=mild6,u0=0.7', dict(lambdas=LAMBDAS_MILD.copy(), u0=0.7)),
         ('lambdas=[-2],u0=1', dict(lambdas=np.array([-2.0 + 0j]), u0=1.0)),
+        # regular but close to singular for the factors 1, 0.1 and 100 of the alphabet (|factor*lambda - 1| of 2e-6 .. 3e-6)
+        ('lambdas=near_1/factor,u0=1', dict(lambdas=NEAR_SINGULAR.copy(), u0=1.0)),
     ]
 
 
@@ -332,6 +337,7 @@ def v_testeq_imex(tier):
         ('impl=pool7,expl=0.5*conj', dict(lambdas_implicit=LAMBDAS.copy(), lambdas_explicit=0.5 * np.conj(LAMBDAS), u0=1.0)),
         ('impl=mild6,expl=rev', dict(lambdas_implicit=LAMBDAS_MILD.copy(), lambdas_explicit=LAMBDAS_MILD[::-1].copy(), u0=0.7)),
         ('impl=mild6,expl=None', dict(lambdas_implicit=0.5 * LAMBDAS_MILD, u0=1.0)),
+        ('impl=near_1/factor,expl=rev', dict(lambdas_implicit=NEAR_SINGULAR.copy(), lambdas_explicit=NEAR_SINGULAR[::-1].copy(), u0=1.0)),
     ]
 
 
